@@ -194,9 +194,12 @@ func (p *bitmapPool) allocBitmap(w, h int) (*bitmap.Bitmap, error) {
 	if err := p.charge(cost); err != nil {
 		return nil, err
 	}
-	bm := bitmap.New(w, h)
-	verifPool('A', bm.Pix, cost, p)
-	return bm, nil
+	if verifPoolOn {
+		bm := bitmap.New(w, h)
+		verifPool('A', bm.Pix, cost, p)
+		return bm, nil
+	}
+	return bitmap.New(w, h), nil
 }
 
 // freeBitmap returns a bitmap's bytes to the live counter.  Use this
